@@ -70,6 +70,13 @@ def _purity_job(args):
             flat = sum(x.bounds().upper_bound for x in a.get_all_edits(b))
             obs.append({"k": "first-tree", "v": snapshot(a), "raised": False, "how": "after get_all_edits()"})
             obs.append({"k": "second-tree", "v": snapshot(b), "raised": False, "how": "after get_all_edits()"})
+            # the first tree against itself and against its own copy (nothing to report, nothing altered), then the
+            # original comparison once more: trees are reusable values
+            for other, how in ((a, "itself"), (a.copy(), "its own copy")):
+                ds = a.diff(other)
+                obs.append({"k": "self-cost", "v": "%s" % ds.edited_cost(), "raised": False, "how": "first tree against " + how})
+                obs.append({"k": "first-tree", "v": snapshot(a), "raised": False, "how": "after a diff against " + how})
+            obs.append({"k": "self-cost", "v": "0", "raised": False, "how": "definition: a document against itself costs nothing"})
             # repeated invocation in one process: same result
             d2 = a.diff(b)
             obs.append({"k": "result", "v": "%s" % cost1, "raised": False, "how": "first diff()"})
@@ -80,6 +87,49 @@ def _purity_job(args):
         obs.append({"k": "result", "v": "", "raised": True, "how": "watchdog"})
     except Exception as ex:
         obs.append({"k": "result", "v": "", "raised": True, "how": "%s: %s" % (type(ex).__name__, str(ex)[:100])})
+    return obs
+
+
+def _deep_job(depths):
+    """The same operation on the same deep documents before and after an unrelated comparison of even deeper ones:
+    whatever the outcome is (a result, or RecursionError at the interpreter's default limit), it must be the same."""
+    import sys
+    from graphtage import json as gjson
+    d1, d2 = depths
+
+    def nest(n, leaf):
+        v = leaf
+        for i in range(n):
+            v = {"k": [v, i]}
+        return v
+
+    def outcome(f):
+        try:
+            return "ok:%s" % f()
+        except RecursionError:
+            return "RecursionError"
+        except Exception as ex:
+            return "raised:%s" % type(ex).__name__
+    lim = sys.getrecursionlimit()
+    try:
+        a, b = gjson.build_tree(nest(d1, 1)), gjson.build_tree(nest(d1, 2))
+    except RecursionError:
+        return [{"k": "deep", "v": "unbuildable", "raised": False, "how": "skipped"}]
+    edits = lambda: sum(e.bounds().upper_bound for e in a.get_all_edits(b))        # noqa: E731
+    whole = lambda: a.diff(b).edited_cost()                                        # noqa: E731
+    obs = [{"k": "deep-edits", "v": outcome(edits), "raised": False, "how": "get_all_edits at depth %d, first" % d1},
+           {"k": "deep-diff", "v": outcome(whole), "raised": False, "how": "diff at depth %d, first" % d1}]
+    try:
+        c, d = gjson.build_tree(nest(d2, 1)), gjson.build_tree(nest(d2, 3))
+        outcome(lambda: c.diff(d).edited_cost())
+        outcome(lambda: [list(c.get_all_edits(d))])
+    except RecursionError:
+        pass
+    obs.append({"k": "deep-edits", "v": outcome(edits), "raised": False, "how": "get_all_edits at depth %d, after comparing documents of depth %d" % (d1, d2)})
+    obs.append({"k": "deep-diff", "v": outcome(whole), "raised": False, "how": "diff at depth %d, after comparing documents of depth %d" % (d1, d2)})
+    obs.append({"k": "recursion-limit", "v": str(lim), "raised": False, "how": "before"})
+    obs.append({"k": "recursion-limit", "v": str(sys.getrecursionlimit()), "raised": False, "how": "after (interpreter-wide state)"})
+    sys.setrecursionlimit(lim)
     return obs
 
 
@@ -169,6 +219,19 @@ def run():
         + corpus.gen_cases("multiline", 150 if t == "quick" else 1500, 7)
     with ctx.Pool(min(16, os.cpu_count() or 4), initializer=_init, maxtasksperchild=300) as pool:
         pur = pool.map(_purity_job, [(c, 7) for c in cases], chunksize=8)
+    # deep documents (process-wide interpreter state such as the recursion limit must not be left changed)
+    deep_args = [(40, 70), (60, 120), (130, 230), (180, 230), (100, 300), (250, 320)]
+    with ctx.Pool(6, initializer=_init, maxtasksperchild=1) as pool:
+        deep = pool.map(_deep_job, deep_args, chunksize=1)
+    dverdicts, dst = functional.validate_groups(deep, name="C07-deep")
+    chk.add_trace_stats(dst, "FunctionalTrace", sum(len(g) for g in deep))
+    for args_, obs, v in zip(deep_args, deep, dverdicts):
+        chk.count(("deep", args_))
+        if v["v"] != "ACCEPT":
+            o = obs[v["step"] - 1]
+            ref = next(x for x in obs if x["k"] == o["k"])
+            chk.violation({"clause": v["clause"], "what": o["k"], "when": "deep-documents"}, {"depths": list(args_)},
+                          "documents nested %d levels: %s gives %s, but %s gave %s" % (args_[0], o["how"], o["v"], ref["how"], ref["v"]))
     verdicts, st = functional.validate_groups(pur, name="C07-purity")
     chk.add_trace_stats(st, "FunctionalTrace", sum(len(g) for g in pur))
     for case, obs, v in zip(cases, pur, verdicts):
